@@ -1,4 +1,5 @@
 import NbioVerif.Properties.C02
+import NbioVerif.Lemmas.SrcBridgeConn
 #print axioms ReadPath.core_run
 #print axioms ReadPath.c02_gate
 #print axioms ReadPath.c02_no_lost_edge
@@ -14,3 +15,4 @@ import NbioVerif.Properties.C02
 #print axioms ReadPath.c02_close_drained
 #print axioms ReadPath.c02_hup_closes
 #print axioms Gate.c02_gate_prefix_counterexample
+#print axioms ConnFull.src_masks_wellformed
